@@ -54,7 +54,32 @@ func (f *Fn) Writes() []Write {
 				if len(s.Lhs) == len(s.Rhs) {
 					r = s.Rhs[i]
 				}
-				out = append(out, Write{f, s, l, r, s.Tok})
+				tok := s.Tok
+				// x += 1 and x -= 1 are x++ and x-- (canonical form: INC/DEC
+				// without an operand), so is x = x + 1
+				if len(s.Lhs) == 1 && r != nil {
+					one := false
+					if cv := f.ConstVal(r); cv != nil && cv.ExactString() == "1" {
+						one = true
+					}
+					switch {
+					case s.Tok == token.ADD_ASSIGN && one:
+						tok, r = token.INC, nil
+					case s.Tok == token.SUB_ASSIGN && one:
+						tok, r = token.DEC, nil
+					case s.Tok == token.ASSIGN:
+						if be, ok := ast.Unparen(r).(*ast.BinaryExpr); ok && (be.Op == token.ADD || be.Op == token.SUB) {
+							if cv := f.ConstVal(be.Y); cv != nil && cv.ExactString() == "1" && f.Prog.NodeStr(be.X) == f.Prog.NodeStr(l) {
+								if be.Op == token.ADD {
+									tok, r = token.INC, nil
+								} else {
+									tok, r = token.DEC, nil
+								}
+							}
+						}
+					}
+				}
+				out = append(out, Write{f, s, l, r, tok})
 			}
 		case *ast.IncDecStmt:
 			out = append(out, Write{f, s, s.X, nil, s.Tok})
